@@ -58,6 +58,11 @@ def build_with(kind, case, cfg, n_jobs=1):
     elif kind == 'StringDiscretizer':
         from AutoCarver.discretizers.utils.type_discretizers import StringDiscretizer
         o = StringDiscretizer(qualitative_features=list(case['qualitative']), copy=True, n_jobs=n_jobs, **{k: v for k, v in zoo.extra_kwargs(cfg).items() if k == 'str_nan'})
+    elif kind == 'MulticlassCarver':
+        from AutoCarver.carvers.multiclass_carver import MulticlassCarver
+        o = MulticlassCarver(sort_by=cfg.get('sort_by', 'tschuprowt'), min_freq=cfg['min_freq'], quantitative_features=list(case['quantitative']), qualitative_features=list(case['qualitative']), ordinal_features=list(case['ordinal']),
+                             values_orders=vo, max_n_mod=cfg.get('max_n_mod', 4), output_dtype=cfg.get('output_dtype', 'float'), dropna=cfg.get('dropna', True), copy=True, verbose=False, n_jobs=n_jobs)
+        o.fit(X, y); return o
     elif kind == 'ChainedDiscretizer':
         from AutoCarver.discretizers.utils.qualitative_discretizers import ChainedDiscretizer
         o = ChainedDiscretizer(qualitative_features=list(case['qualitative']), chained_orders=[{p: list(ch) + [p] for p, ch in lvl.items()} for lvl in case['levels']], min_freq=cfg['min_freq'], copy=True, n_jobs=n_jobs)
@@ -100,6 +105,19 @@ def chained_case(rng, i):
         else: cols['h%d' % k] = [leaves[11 - min(11, int((j % 7) * 1.4)) if j % 4 else 11] for j in range(n)]                 # v23 frequent, group G0 rare: not the same rare leaves as h0
     X = pd.DataFrame({c: pd.Series(v, dtype=object) for c, v in cols.items()})
     return dict(X=X, y=pd.Series([j % 2 for j in range(n)]), X_dev=None, y_dev=None, quantitative=[], qualitative=list(cols), ordinal=[], values_orders={}, target='binary', levels=levels, origin=dict(kind='chained'))
+
+
+def multiclass_named_case(rng, i):
+    """3 classes; two quantitative features 'inc' and 'inc_<class>': the second one is named like the per-class copy the carver builds for the first"""
+    n = 150; labels = [[0, 1, 2], ['a', 'b', 'c']][i % 2]; z = [rng.random() for _ in range(n)]
+    y = pd.Series([labels[min(2, int(v * 3))] for v in z])
+    X = pd.DataFrame({'inc': [round(v * 10 + rng.gauss(0, 2), 1) for v in z], 'inc_%s' % labels[1 + i % 2]: [round((1 - v) * 5 + rng.gauss(0, 1.5), 1) for v in z], 'other': [round(rng.random(), 2) for _ in range(n)]})
+    return dict(X=X, y=y, X_dev=None, y_dev=None, quantitative=list(X.columns), qualitative=[], ordinal=[], values_orders={}, target='multiclass', origin=dict(kind='multiclass_named'))
+
+
+def ushape_specs(rng, n):
+    from rtc.c11_invariance import ushape_cases
+    return [('BinaryCarver', case, cfg) for case, cfg in ushape_cases(rng, n)]
 
 
 def one(arg):
@@ -183,6 +201,12 @@ def hashseed_digests(seed, tier):
         except Exception as e:
             d = 'raised ' + type(e).__name__
         out.append(hashlib.md5(json.dumps(d, sort_keys=True, default=str).encode()).hexdigest())
+    # count tables whose target rate ties exactly between NON-adjacent values (which groups are neighbours must not depend on the hash seed), and a multiclass
+    # carver with a feature named like a per-class copy
+    for kind, c, cfg in ushape_specs(rng, 6 if tier == 'quick' else 30) + [('MulticlassCarver', multiclass_named_case(rng, j), dict(min_freq=0.1, max_n_mod=3, sort_by='tschuprowt', dropna=True, output_dtype='float')) for j in range(2)]:
+        try: d = digest_obj(build_with(kind, c, cfg), c['X'])
+        except Exception as e: d = 'raised ' + type(e).__name__
+        out.append(hashlib.md5(json.dumps(d, sort_keys=True, default=str).encode()).hexdigest())
     return out
 
 
@@ -195,6 +219,7 @@ def run(ctx):
         if i % 3 == 1: cfg['str_nan'] = 'MISSING'; cfg['str_default'] = 'AUTRES'
         specs.append((kind, case, cfg, ctx.seed * 31 + i))
     specs.append(('ChainedDiscretizer', chained_case(ctx.rng, 0), dict(min_freq=0.1), ctx.seed * 31 + 999))
+
     for j in range(3):
         c = make_case(ctx.rng, 100 + j); c = sub_case(c, [f for f in c['qualitative'] if f in ('c_numnan', 'c_num', 'c_int')])
         specs.append(('StringDiscretizer', c, dict(min_freq=0.1, **({'str_nan': 'MISSING'} if j != 1 else {})), ctx.seed * 31 + 2000 + j))
